@@ -401,9 +401,9 @@ end
 theorem expD_floatExpD {e : List Char} {ev : Int} (h : ExpD e ev) : FloatGrammar.ExpD e ev := by
   cases h with
   | none => exact .none
-  | @plain c ds hc hd => exact FloatGrammar.ExpD.some (sg := []) (neg := false) hc .none hd
-  | @plus c ds hc hd => exact FloatGrammar.ExpD.some (sg := ['+']) (neg := false) hc .plus hd
-  | @minus c ds hc hd => exact FloatGrammar.ExpD.some (sg := ['-']) (neg := true) hc .minus hd
+  | @plain c ds hc hd => exact FloatGrammar.ExpDV.some (sg := []) (neg := false) hc .none hd
+  | @plus c ds hc hd => exact FloatGrammar.ExpDV.some (sg := ['+']) (neg := false) hc .plus hd
+  | @minus c ds hc hd => exact FloatGrammar.ExpDV.some (sg := ['-']) (neg := true) hc .minus hd
 
 theorem unsigned_numberD {i f e fd : List Char} {ev : Int} (hi : IntPart i) (hf : FracD f fd) (he : ExpD e ev) :
     FloatGrammar.NumberD (i ++ f ++ e) (digitsVal (i ++ fd)) (ev - fd.length) := by
@@ -411,10 +411,10 @@ theorem unsigned_numberD {i f e fd : List Char} {ev : Int} (hi : IntPart i) (hf 
   have hne : i ≠ [] := by rw [hct]; simp
   cases hf with
   | none =>
-    have := FloatGrammar.NumberD.int ⟨hne, hd⟩ (expD_floatExpD he)
+    have := FloatGrammar.NumberDV.int ⟨hne, hd⟩ (expD_floatExpD he)
     simpa using this
   | @some ds hds =>
-    have := FloatGrammar.NumberD.point hd hds.2 (Or.inl hne) (expD_floatExpD he)
+    have := FloatGrammar.NumberDV.point hd hds.2 (Or.inl hne) (expD_floatExpD he)
     simpa using this
 
 /-- RFC 8259 `number` ⊆ Rust `Float`, same decimal, same sign -/
@@ -424,17 +424,19 @@ theorem numD_floatD {lex : List Char} {d : Dec} (h : NumD lex d) :
   | @pos i f e fd ev hi hf he =>
     have hn : lexNeg (i ++ f ++ e) = false := by rw [List.append_assoc]; exact lexNeg_pos hi _
     rw [hn]
-    have := FloatGrammar.FloatD.number .none (unsigned_numberD hi hf he)
+    have := FloatGrammar.FloatDV.number .none (unsigned_numberD hi hf he)
     simpa using this
   | @neg i f e fd ev hi hf he =>
     rw [lexNeg_cons]
-    have := FloatGrammar.FloatD.number .minus (unsigned_numberD hi hf he)
+    have := FloatGrammar.FloatDV.number .minus (unsigned_numberD hi hf he)
     simpa using this
 
 /-- **the REAL of a JSON number literal is `f64::from_str` of the same text** (what the C02 oracle of the harness
-demands since D66) -/
-theorem json_number_is_from_str {lex : List Char} {d : Dec} (h : NumD lex d) :
+demands since D66) — for every literal whose exponent digits' value is below 65 536 (`FloatGrammar.ExpSmall`, decidable
+on the text): beyond that Rust's `f64::from_str` stops reading the exponent (observation N3; serde_json does not), and
+the two agree only while the literal is shorter than ≈ 65 000 characters (both `±0` / out of range). -/
+theorem json_number_is_from_str {lex : List Char} {d : Dec} (h : NumD lex d) (hs : FloatGrammar.ExpSmall lex) :
     DecFloat.parseF64 lex = some (realOfDec (lexNeg lex) d) :=
-  (DecFloat.parseF64_iff lex _).2 ⟨_, numD_floatD h, rfl⟩
+  (DecFloat.parseF64_iff hs _).2 ⟨_, numD_floatD h, rfl⟩
 
 end Sqlgrep.JsonDoc
